@@ -47,6 +47,12 @@ func units(s string) []uint16 { return utf16.Encode([]rune(s)) }
 func (r *renderer) pos() int { return len(r.buf) + 1 }
 
 func (r *renderer) emit(s string) int {
+	// otto's lexer loses the character between a CR and an LF that are one character apart
+	// (parser/lexer.go skipWhiteSpace: peek() looks two characters ahead) - a matter of the
+	// parser properties, kept out of these programs: never write CR x LF
+	if n := len(r.buf); n >= 2 && len(s) > 0 && s[0] == '\n' && r.buf[n-2] == '\r' && r.buf[n-1] != '\n' {
+		r.buf = append(r.buf, ' ')
+	}
 	p := r.pos()
 	r.buf = append(r.buf, units(s)...)
 	return p
